@@ -104,7 +104,14 @@ fn check_for_boolean_directive(
 
     let mut first_line = true;
 
-    for line in code[..subject_pos + 1].lines().rev()
+    /*
+     * Include the first character of the subject, which may be more than one byte long.
+     */
+    let subject_end = (subject_pos + 1..code.len())
+        .find(|&pos| code.is_char_boundary(pos))
+        .unwrap_or(code.len());
+
+    for line in code[..subject_end].lines().rev()
     {
         if first_line
         {
